@@ -60,15 +60,23 @@ Section Pipe.
                    | _ => rw k OpAssign x
                    end) (fun x' => obind (rw k OpAssign y) (fun y' => Some (EBin op x' y')))
           else
-          let '(x1, pl) :=
+          let unwrap :=
             if Nat.leb prec OpExpr then
               match x with
               | EGroup (EBin opc l r) =>
-                  if is_op opc "CommaToken" && Nat.leb OpAnd (expr_prec T r) && Nat.leb (leftp T op) (expr_prec T r) then (EBin opc l r, OpExpr) else (x, leftp T op)
-              | _ => (x, leftp T op)
+                  if is_op opc "CommaToken" && Nat.leb OpAnd (expr_prec T r) && Nat.leb (leftp T op) (expr_prec T r) then Some (opc, l, r) else None
+              | _ => None
               end
-            else (x, leftp T op) in
-          obind (rw k pl x1) (fun x' => obind (rw k (rightp T op) y) (fun y' => Some (EBin op x' y')))
+            else None in
+          match unwrap with
+          | Some (opc, l, r) =>
+              (* the tree the tokens parse to: l , (r op y) *)
+              obind (match l with
+                     | EBin opl _ _ => if is_op opl "CommaToken" then rw k OpExpr l else rw k OpAssign l
+                     | _ => rw k OpAssign l
+                     end) (fun l' => obind (rw k (leftp T op) r) (fun r' => obind (rw k (rightp T op) y) (fun y' => Some (EBin opc l' (EBin op r' y')))))
+          | None => obind (rw k (leftp T op) x) (fun x' => obind (rw k (rightp T op) y) (fun y' => Some (EBin op x' y')))
+          end
       | EPre op x => obind (rw k (plookup (t_unary T) op) x) (fun x' => Some (EPre op x'))
       | EPost op x => obind (rw k (plookup (t_unary T) op) x) (fun x' => Some (EPost op x'))
       | ECond c x y => obind (rw k OpCoalesce c) (fun c' => obind (rw k OpAssign x) (fun x' => obind (rw k OpAssign y) (fun y' => Some (ECond c' x' y'))))
